@@ -41,7 +41,7 @@ func vpBuildState(n, depth, maxc int, untracked bool) ([]vpTracked, []vpFile) {
 	}
 	var us []vpFile
 	if untracked {
-		p := vpPath("u0", depth, maxc)
+		p := vpPath("u0", depth, zzvp.Param("ucomplen", 1))
 		for _, o := range ts {
 			zzvp.Assume(o.path != p && !vpHasDirPrefix(p, o.path) && !vpHasDirPrefix(o.path, p))
 		}
